@@ -164,3 +164,80 @@ pub fn u_prefix_counts_unit() -> Universe {
     }
     Universe::from_words("U_pc{y,z}(ab)^{1..4}+c all subsets", w, 0)
 }
+
+/// Large tries: the complete set Sigma^{1..=k} with up to `holes` words removed (k = 6 over two letters gives
+/// 126 strings and 127 trie states), so that the minimiser and the elimination work on automata far larger than
+/// any small-subset universe produces.
+pub fn u_full_minus(sigma: &[&str], k: usize, holes: usize) -> Universe {
+    let all = words(sigma, k, false);
+    let n = all.len();
+    let mut sets: Vec<Vec<usize>> = vec![(0..n).collect()];
+    if holes >= 1 {
+        for i in 0..n {
+            sets.push((0..n).filter(|x| *x != i).collect());
+        }
+    }
+    if holes >= 2 {
+        for i in 0..n {
+            for j in i + 1..n {
+                sets.push((0..n).filter(|x| *x != i && *x != j).collect());
+            }
+        }
+    }
+    Universe { name: format!("U_full{{{}}}^<={k} minus <={holes} words", sigma.join(",")), words: all, sets }
+}
+
+/// Medium-size structured sets: for every word w of Sigma^{k}, the set of all words of Sigma^{1..=k} that do NOT
+/// start with w's first half plus all words that end with w's second half -- irregular tries of 60-120 states.
+pub fn u_irregular(sigma: &[&str], k: usize) -> Universe {
+    let all = words(sigma, k, false);
+    let tops: Vec<String> = all.iter().filter(|w| w.chars().count() == k).cloned().collect();
+    let mut sets = vec![];
+    for t in &tops {
+        let cs: Vec<char> = t.chars().collect();
+        let (h1, h2): (String, String) = (cs[..k / 2].iter().collect(), cs[k / 2..].iter().collect());
+        let set: Vec<usize> = (0..all.len()).filter(|i| !all[*i].starts_with(&h1) || all[*i].ends_with(&h2)).collect();
+        if !set.is_empty() {
+            sets.push(set);
+        }
+    }
+    sets.sort();
+    sets.dedup();
+    Universe { name: format!("U_irregular{{{}}}^<={k}", sigma.join(",")), words: all, sets }
+}
+
+/// A fixed pseudo-random corpus of LARGE sets (many, long test cases), generated from VERIF_SEED by a plain LCG.
+/// This is the one place where the input space is sampled instead of enumerated: tries with more than ~60 states
+/// are out of reach of any complete small-scope universe. The corpus itself is then checked exhaustively (every set),
+/// and the evidence labels it as a corpus, not as a bound.
+pub fn u_corpus(name: &str, seed: u64, n_sets: usize, sigma: &[&str], strings: (usize, usize), len: (usize, usize)) -> Universe {
+    let mut st = seed.wrapping_mul(0x9E3779B97F4A7C15).wrapping_add(0x1234_5678_9abc_def1);
+    let mut next = move |m: usize| -> usize {
+        st = st.wrapping_mul(6364136223846793005).wrapping_add(1442695040888963407);
+        ((st >> 33) as usize) % m
+    };
+    let mut words: Vec<String> = vec![];
+    let mut index: std::collections::HashMap<String, usize> = std::collections::HashMap::new();
+    let mut sets = vec![];
+    for _ in 0..n_sets {
+        let k = strings.0 + next(strings.1 - strings.0 + 1);
+        let mut set = vec![];
+        for _ in 0..k {
+            let l = len.0 + next(len.1 - len.0 + 1);
+            let w: String = (0..l).map(|_| sigma[next(sigma.len())]).collect();
+            let id = *index.entry(w.clone()).or_insert_with(|| {
+                words.push(w.clone());
+                words.len() - 1
+            });
+            if !set.contains(&id) {
+                set.push(id);
+            }
+        }
+        sets.push(set);
+    }
+    Universe { name: format!("{name}: corpus of {n_sets} sets, {}-{} strings of length {}-{} over {{{}}}, LCG seed {seed}", strings.0, strings.1, len.0, len.1, sigma.join(",")), words, sets }
+}
+
+pub fn verif_seed() -> u64 {
+    std::env::var("VERIF_SEED").ok().and_then(|s| s.parse().ok()).unwrap_or(0)
+}
